@@ -1,7 +1,7 @@
 ----------------------------- MODULE DebuggerGate -----------------------------
 (* C20, second half: the gates of the interactive debugger (DebuggedApplication).           *)
 (*                                                                                          *)
-(* cfg  = [evalex, pin_on : BOOLEAN, pin : "A" | "B"]  (changeable while the application lives) *)
+(* cfg  = [evalex, pin_on : BOOLEAN, pin : "A" | "B", plog : BOOLEAN (pin_logging)]                *)
 (* old:   [evalex, pin_on : BOOLEAN]                                                        *)
 (* q    = [cmd    : "eval" | "console" | "pinauth" | "printpin" | "resource" | "none",     *)
 (*         secret : "right" | "wrong" | "absent",                                           *)
@@ -56,6 +56,10 @@ Safety(cfg, fails, q, o) ==
   ELSE IF o.console /\ ~(cfg.evalex /\ q.cmd = "console" /\ MayTrust(q)) THEN "ConsoleOnlyTrustedHost"
   ELSE IF (o.auth # "none" \/ o.cookie_set \/ o.exhausted) /\ ~PinReach(q, MayTrust(q)) THEN "PinOnlyTrustedHost"
   ELSE IF o.pin_logged /\ ~(q.cmd = "printpin" /\ q.secret = "right" /\ MayTrust(q)) THEN "PinOnlyTrustedHost"
+  \* "answer only trusted Hosts": to an untrusted Host the debugger's own console / PIN endpoints give no
+  \* successful answer whatever the other options are (they refuse, 400-class, or leave the request to the application)
+  ELSE IF q.hv = "U" /\ ~o.app_called /\ o.status < 400 /\ cfg.evalex /\ q.cmd = "console" THEN "ConsoleOnlyTrustedHost"
+  ELSE IF q.hv = "U" /\ ~o.app_called /\ o.status < 400 /\ q.cmd \in {"pinauth", "printpin"} /\ q.secret = "right" THEN "PinOnlyTrustedHost"
   ELSE IF o.auth = "true" /\ Locked(fails) /\ ~CookieOK(cfg, q) THEN "LockoutSticks"
   ELSE IF o.auth = "true" /\ ~CookieOK(cfg, q) /\ ~PinRight(cfg, q) THEN "AuthOnlyWithPin"
   ELSE IF o.cookie_set /\ o.auth # "true" THEN "CookieOnlyIfAuth"
@@ -127,7 +131,7 @@ ImplStep(variant, cfg, cnt, q, trusted) ==
   ELSE IF q.cmd = "resource" THEN [o |-> Nothing, cnt |-> cnt]
   ELSE IF q.cmd = "pinauth" /\ secok THEN ImplPinAuth(variant, cfg, cnt, q, hostok)
   ELSE IF q.cmd = "printpin" /\ secok THEN
-       (IF hostok THEN [o |-> [Nothing EXCEPT !.pin_logged = cfg.pin_on], cnt |-> cnt]
+       (IF hostok THEN [o |-> [Nothing EXCEPT !.pin_logged = (cfg.pin_on /\ cfg.plog)], cnt |-> cnt]
         ELSE [o |-> Refused, cnt |-> cnt])
   ELSE IF /\ q.cmd = "eval" /\ cfg.evalex /\ FrameKnown(q) /\ secok
           /\ (PinTrust(variant, cfg, q) = "true" \/ variant = "mut_nopin") THEN
